@@ -166,6 +166,8 @@ def run(chk, prog):
             if n not in fields:
                 chk.note('C17 class table entry is stale: Story::' + n)
     neutral_rules(chk, prog, tr, eff, RB)
+    scratch_rules(chk, prog, tr, RB)
+    no_in_place_mutation_of_shared_values(chk, prog, tr)
     check_count_pairing(chk, prog, tr, RB)
 
     # ---- (c)
@@ -301,3 +303,64 @@ def snapshot_flow(prog, tr, eff, ci):
     gf = GuardFlow(prog, ci, atom_of, tracer=tr, kills=kills)
     gf.run()
     return gf
+
+
+def scratch_rules(chk, prog, tr, RB):
+    """A 'scratch' field of Story carries nothing from one use to the next: in every function that reads it, each read
+    is preceded by a clear of it on every path from the function's entry (the table reason, re-validated)."""
+    for fld, (cls, _) in CLASS.items():
+        if cls != 'scratch':
+            continue
+        want = 'field:Story::' + fld
+        n = 0
+        for fn in sorted(prog.fns.values(), key=lambda f: f.p):
+            if fn.crate != 'bladeink' or fn.parent:
+                continue
+            reads, clears = [], []
+            for bb, t in fn.calls():
+                if not t['args']:
+                    continue
+                cs = callee_short(t)
+                if want in tr.prov(fn, t['args'][0]):
+                    if cs.rsplit('::', 1)[-1] in ('clear', 'truncate', 'drain'):
+                        clears.append(bb)
+                    elif cs.rsplit('::', 1)[-1] in ('contains', 'iter', 'get', 'len', 'is_empty', 'first', 'last', 'index',
+                                                    'into_iter', 'binary_search', 'starts_with', 'ends_with'):
+                        reads.append(bb)
+            if not reads:
+                continue
+            n += 1
+            g = cfg(fn)
+            w = g.path([0], lambda b: b in reads, avoid=clears)
+            chk.decide(RB, chk.key(RB, 'scratch', fld, fn.short), bool(clears) and w is None,
+                       'cleared on every path before it is read',
+                       '%s reads the scratch buffer Story::%s on a path on which it has not cleared it: what the previous '
+                       'use left there (also across reset_state, which does not touch it) leaks into this one'
+                       % (fn.short, fld), fn.loc(reads[0]), {'witness_blocks': w})
+        chk.floor(RB, 'functions reading the scratch field ' + fld, n, 1)
+
+
+def no_in_place_mutation_of_shared_values(chk, prog, tr):
+    RD_ = 'C17.shared-values-are-not-written-in-place'
+    chk.rule(RD_, 'The story content survives reset_state, and values are shared by reference between the content, the '
+             'default globals, the globals and the evaluation stack. The interior write of a list value that is kept (its '
+             'initial origin names) is applied only to a list the writing function has just created or copied (InkList::new '
+             '/ clone), never to one it received: a write into a received value reaches the content literal or another '
+             'variable\'s default and outlives the reset.')
+    n = 0
+    for fn in sorted(prog.fns.values(), key=lambda f: f.p):
+        if fn.crate != 'bladeink':
+            continue
+        for bb, t in fn.calls():
+            if callee_short(t) != 'InkList::set_initial_origin_names' or not t['args']:
+                continue
+            n += 1
+            at = tr.prov(fn, t['args'][0])
+            fresh = any(a in ('call:InkList::new', 'via:<InkList as Clone>::clone', 'call:<InkList as Clone>::clone',
+                              'via:InkList::new') for a in at)
+            chk.decide(RD_, chk.key(RD_, prog.root_fn(fn).short, '#%d' % n), fresh,
+                       'written into a list created or copied here',
+                       '%s writes the initial origin names into a list value it did not create (%s): the value may be the '
+                       'content literal or a default shared with other variables, and the write survives reset_state'
+                       % (prog.root_fn(fn).short, sorted(a for a in at if not a.startswith('via:'))[:4]), fn.loc(bb))
+    chk.floor(RD_, 'writes of initial origin names', n, 3)
